@@ -134,7 +134,7 @@ class Outcome:
         ev = {"property_id": self.prop, "tier": self.tier, "seed": seed(), "level": self.level,
               "coverage": cov, "assumptions": self.assumptions, "wall_s": round(wall, 2),
               "violations": len(self.violations)}
-        with open(os.path.join(EVIDENCE, self.prop + ".json"), "w") as fh:
+        with open(os.path.join(EVIDENCE, self.prop + (".replay" if os.environ.get("VERIF_REPLAY") else "") + ".json"), "w") as fh:
             json.dump(ev, fh, indent=1, default=str)
         known = {e["id"]: e for e in load_known()}
         for fid, n in sorted(self.known.items()):
